@@ -133,6 +133,10 @@ def _mk_conditional(kind, R):
         p_x, px = SP.gen_pdf(w, "x", R, "Dx")
         mu_s, Sy_s, Eyx_s = moment_spec(w, par, px, Kp, "Dx")
         cov_yx = Eyx_s - xp.einsum("ra,rj->raj", mu_s, px["mu"])
+        if kind == "lsem":
+            # the code's moment-matched covariance and the spec's are equal but written with the two rank-one updates in
+            # different orders: identify their inverses (ghost step, the equality itself is proved by the kernel)
+            w.inv_congruence(obj.get_expected_moments(p_x)[1], Sy_s)
         Ly = w.inv(Sy_s)
         post = obj.affine_conditional_transformation(p_x)                  # REAL
         M_s = xp.einsum("raj,rab->rjb", cov_yx, Ly)
@@ -205,7 +209,42 @@ def _mk_hetero(kind, what):
     return ob
 
 
+def _mk_hetero_trunc(kind):
+    """step / rectified-linear links: E[link(h)] under the 1-D law of h = w'x + w0 ~ N(m, s^2) through the truncated measure
+    (C20 contracts):  E[step(h)] = Phi(m/s),  E[relu(h)] = m Phi(m/s) + s phi(m/s);  then the moments as for the other links"""
+    from .C17 import gen_hetero
+
+    def ob(w):
+        xp = w.xp
+        w.literal_arange = True
+        obj, par = gen_hetero(w, kind, "wide")
+        p_x, px = SP.gen_pdf(w, "x", 1, "Dx")
+        mu, Sx = px["mu"], px["S"]
+        m = xp.einsum("ki,ri->rk", par["wv"], mu)[0] + par["w0"]
+        s = xp.sqrt(xp.einsum("ki,rij,kj->rk", par["wv"], Sx, par["wv"])[0])
+        ED = w.Phi(m / s) if kind == "heaviside" else m * w.Phi(m / s) + s * w.phi(m / s)
+        w.equal("integrate_noise_diagonal=E[link(h)]", obj._integrate_noise_diagonal(p_x), ED)
+        M, b, Ak, A = par["M"][0], par["b"][0], par["Ak"][0], par["A"][0]
+        mu_s = xp.einsum("ij,rj->ri", M, mu) + b[None]
+        Sy_s = (xp.einsum("ia,ja->ij", A, A) + xp.einsum("ik,k,jk->ij", Ak, ED, Ak))[None] + xp.einsum("ij,rjk,lk->ril", M, Sx, M)
+        mu_y, Sigma_y = obj.get_expected_moments(p_x)                    # REAL
+        w.equal("get_expected_moments/mu", mu_y, mu_s)
+        w.equal("get_expected_moments/Sigma", Sigma_y, Sy_s)
+        p_y = obj.affine_marginal_transformation(p_x)                    # REAL
+        w.equal("marginal/mu", p_y.mu, mu_s)
+        w.equal("marginal/Sigma", p_y.Sigma, Sy_s)
+    return ob
+
+
 def _register():
+    for kind, cls in (("heaviside", "HeteroscedasticHeavisideConditional"), ("relu", "HeteroscedasticReLUConditional")):
+        REG.ob(f"{cls}/moments", sorts=["Dy", "Dx", "Dk", "Dr"],
+               funcs=[f"approximate_conditional.{cls}._integrate_noise_diagonal", "approximate_conditional.HeteroscedasticConditional.integrate_Sigma_x",
+                      "approximate_conditional.HeteroscedasticConditional.get_expected_moments", "pdf.GaussianPDF.get_density_of_linear_sum",
+                      "experimental.truncated_measure.TruncatedGaussianMeasure.integral", "experimental.truncated_measure.TruncatedGaussianMeasure.integrate_x"],
+               axioms=AX + ["G4 truncated Gaussian integrals", "jax.vmap: map over the leading axis"],
+               order={("Dy", "Dk+Dr"): False, ("Dk", "Dk+Dr"): False},
+               sizes=[dict(Dy=2, Dx=3, Dk=2, Dr=2), dict(Dy=3, Dx=2, Dk=1, Dr=3)])(_mk_hetero_trunc(kind))
     for kind, cls in (("exp", "HeteroscedasticExpConditional"), ("coshm1", "HeteroscedasticCoshM1Conditional")):
         F = [f"approximate_conditional.{cls}._integrate_noise_diagonal"] +             [f"approximate_conditional.HeteroscedasticConditional.{m}" for m in ("integrate_Sigma_x", "get_expected_moments", "get_expected_cross_terms",
              "affine_joint_transformation", "affine_conditional_transformation", "affine_marginal_transformation")]
@@ -222,12 +261,10 @@ def _register():
         # LSEM: E[k_i k_j] goes through two successive Sherman-Morrison updates; the equality of the two update orders
         # (needed for every covariance-level clause) exceeds the kernel's canonicalisation budget -> only the mean-level
         # clauses are obligations for this class, the rest is listed as not covered
-        lsem_only = ["get_expected_moments/mu", "get_expected_cross_terms", "marginal/mu"] if kind == "lsem" else None
+        lsem_only = None
         for R in ("R", 1):
             REG.ob(f"{cls}/moments+marginal/R={R}", sorts=(["R"] if R != 1 else []) + ["Dx", "Dy", "Dk"], funcs=F, axioms=AX,
                    only_clauses=lsem_only, tier="quick" if R == 1 or kind == "rbf" else "thorough")(_mk_moments(kind, R))
-            if kind == "lsem":
-                continue
             REG.ob(f"{cls}/conditional/R={R}", sorts=(["R"] if R != 1 else []) + ["Dx", "Dy", "Dk"], funcs=F, axioms=AX)(_mk_conditional(kind, R))
             REG.ob(f"{cls}/joint/R={R}", sorts=(["R"] if R != 1 else []) + ["Dx", "Dy", "Dk"], funcs=F, axioms=AX,
                    note="the joint's precision / log-determinant (inverse of a block matrix) are opaque: wf of the joint is not covered")(_mk_joint(kind, R))
